@@ -417,4 +417,5 @@ def run(ctx):
     # prescribed ones in every (sde_type, noise_type) cell (rules of C11)
     from . import c11
     ctx.guard(c11.r11_1)
+    ctx.guard(c11.r11_2)       # ... and are differentiated with a graph (a graph-less forward value gives a silent zero vjp)
     ctx.guard(c11.r11_4)
